@@ -16,7 +16,7 @@ func TestC07Proc(t *testing.T) {
 	var cells []Cell
 	for _, tls := range []string{"none", "auto"} {
 		for _, mux := range []bool{false, true} {
-			for _, launch := range []string{"runner", "runner-xlate", "runner-fwd"} {
+			for _, launch := range []string{"runner", "runner-xlate", "runner-fwd", "runner-fwdname"} {
 				for _, hist := range [][]string{{"callback"}, {"revcallback"}, {"callback", "revcallback"}, {"revcallback", "callback", "callback"}} {
 					ops := append([]string{"new", "start", "client", "dispense", "set:5"}, hist...)
 					ops = append(ops, "get", "ping", "kill")
